@@ -14,6 +14,12 @@ import (
 	"verif/harness/vlog"
 )
 
+// envSimTick, when set, is called before (pre = true) and after every tick of runEnvTimed.
+var envSimTick func(vm *bondmachine.VM, pre bool)
+
+// hdlPreClockHook, when set, is called before every clock of runEnvHdl.
+var hdlPreClockHook func(*vlog.Sim)
+
 // envSimDelays, when set, gives the simulator of runEnv / runEnvTimed per-opcode delays.
 var envSimDelays *simbox.SimDelays
 
@@ -54,8 +60,14 @@ func runEnvTimed(bm *bondmachine.Bondmachine, input func(port, k int) uint64, ma
 		vm.InputsValid[i] = true
 	}
 	for t := 0; t < maxTicks; t++ {
+		if envSimTick != nil {
+			envSimTick(vm, true)
+		}
 		if _, err := vm.Step(nil); err != nil {
 			return res, fmt.Errorf("tick %d: %v", t, err)
+		}
+		if envSimTick != nil {
+			envSimTick(vm, false)
 		}
 		res.Ticks = t + 1
 		for i := 0; i < nin; i++ {
@@ -136,6 +148,9 @@ func runEnvHdl(sim *vlog.Sim, nin, nout int, input func(port, k int) uint64, max
 		sim.Set(fmt.Sprintf("i%d_valid", i), 1)
 	}
 	for t := 0; t < maxClocks; t++ {
+		if hdlPreClockHook != nil {
+			hdlPreClockHook(sim)
+		}
 		if err := sim.Step("clk"); err != nil {
 			return res, fmt.Errorf("clock %d: %v", t, err)
 		}
